@@ -66,7 +66,8 @@ func ruleC13R1(c *Ctx) {
 func ruleC13R2(c *Ctx) {
 	fn := c.P.Fn("transform/tparsetime.(*parseTimeTransform).Transform")
 	var counterCalls []ssa.Instruction
-	for _, site := range callsIn(fn) {
+	// over the region: the counting may stand in a private helper of Transform (the enumeration below enters it)
+	for _, site := range c.callsInR(fn) {
 		if site.Common().StaticCallee() == nil && !site.Common().IsInvoke() {
 			if u, ok := strip(site.Common().Value).(*ssa.UnOp); ok {
 				if fa, ok := strip(u.X).(*ssa.FieldAddr); ok && fieldName(fa.X.Type(), fa.Field) == "transform/tparsetime.parseTimeTransform.errorCounter" {
